@@ -20,7 +20,7 @@ from ..model import AnalysisError
 from ..tables import routing as T
 from .C01 import match_all, mask_root, describe
 
-FLOOR = 119
+FLOOR = 138
 EXPLANATION = (
     "Static analysis of the 14 check_solution_validity implementations (resolved through inheritance, incl. nested helper "
     "closures and loops): every assert condition is decomposed into literals in admit normal form and compared with the "
